@@ -86,3 +86,35 @@ claim('C20', 'Axiom-free over the model of e3fp.config.params on top of configpa
       'and typed value (unrestricted statement refuted with witnesses = the listed known findings); user value wins, absent option = default iff fill_defaults; FINITE over tables regenerated from the working tree each run: every option of defaults.cfg equals, '
       'type-exactly, the default of the same-named parameter of all eight entry points incl. both argparse parsers (bits excepted). Tie: ~4400 cases per quick run at every stage, classifier validated against the real literal_eval, end-to-end fingerprints via '
       'parameter file vs direct options.', TB + ' configparser, literal_eval, str/repr as modelled; reflection (inspect.signature, intercepted parse_args).', 'Coq proof + regenerated facts + differential correspondence', 'DESIGN.md 5 C20')
+
+
+# ---- wording revised after the independent audit (DESIGN.md S7/S8): hypotheses named, by-construction theorems labelled ----
+def reclaim(pid, extra_text=None, extra_note=None):
+    t, n, tech, ref = CLAIMED[pid]
+    CLAIMED[pid] = (t + (' ' + extra_text if extra_text else ''), n + (' ' + extra_note if extra_note else ''), tech, ref)
+
+reclaim('C01', 'Also instantiated at the canonical rationals Qc (axiom-free, executable): a non-axis-aligned rational rotation is executed by vm_compute (rational_rotation_executes).',
+        'Hypotheses: ringlaws D, orth M (M^T M = I), mdet M = 1 (not needed when stereo is off). Over Z an orthogonal matrix is a signed permutation; general SE(3) is covered by the Qc and R instances of the same theorem.')
+reclaim('C03', None, 'Hypotheses: ordlaws D (instance Z), cone_ok C (proved for the regenerated constants), injective p, distinct atom indices, gp_mol when stereo is on.')
+reclaim('C04', 'The object model carries the conformer-level state explicitly (level_shells dictionary with representable stale keys, past_substructs, current_level; reset_mol/reset_conf as separate functions): '
+        'frun_levels_exact (after any run the dictionary holds exactly levels 0..k of that run), fquery_eq_fingerprint_query (dictionary-based resolution = the range-based one of the core model), '
+        'stale_levels_without_reset (a variant that skips the reset returns the previous conformer\'s shells: the reset is necessary).',
+        'Hypothesis: consistent h (same identity => same atoms/bonds, distinct atom indices). The tie feeds the reused object\'s dictionary keys and its answers at every explicit level to the model.')
+reclaim('C05', 'No hypothesis on the operation list (the ops_dom restriction of the first version was removed after two hidden defects were repaired); reload through .fpz/.fps is an operation of the histories (reload_id, pickle_id); rows_wf over any history of well-formed inputs.',
+        'pure_reads_change_nothing and the no-op of similarity calls hold by construction of the model (read operations return the state); what carries weight there is the correspondence, which re-observes every live database after every step. Model domain: no duplicate column in from_array input, counts < 2^16, names None or non-empty, one dtype kind per column.')
+reclaim('C07', 'Count databases: a folded count is the exact sum while it is <= 65535 and the sum modulo 2^16 beyond (uint16 storage): db_fold_count_no_overflow / db_fold_count_wraps; database fold = fingerprint fold on the premise that every folded sum fits.',
+        None)
+reclaim('C10', None, 'The *_rt_content theorems return level and name only when the caller re-supplies them (set_meta); formats that carry them: pickle_rt, file_rt, file_carries_meta under explicit codec hypotheses (pkl_loads (pkl_dumps s) = s; file_read e (file_write e l) = l).')
+reclaim('C11', 'batch_bits_mismatch_rejected (add/mean reject mixed lengths); div/floordiv by zero specified.', 'Known finding: reflected scalar division (2 / a returns a / 2).')
+reclaim('C13', None, 'generator_reusable and energies_reported hold by construction of the model (the generator state is a function of the configured options and the current molecule; the oracles are pure functions): the correspondence on reuse sequences and on pools rebuilt independently with RDKit is what ties them to the code. GetBestRMS symmetry is measured on every real pool (deviation > 1e-4 fails the run).')
+reclaim('C14', 'all_iters_spec_M1: the truncation premise is discharged for the M1 model from C12 (premise: fuel > L).', 'Remaining premises: unpickle_pickle, per-call success premises, plain_name s.')
+reclaim('C15', 'After the repair of the half-written all_iters case resume_preserves holds for EVERY existing file with no premise.',
+        'db_schedule_independent / input_order_independent reduce to "flat_map respects Permutation" and failure_isolated to "a failing input contributes nothing": true by the shape of the collection loop as modelled, tied to the code by the real serial/threads/processes runs (labelled by the mode actually used; completion-order differences counted). Premises: disjoint/wf_job (derived for run() from level_ok and distinct molecule names), complete.')
+reclaim('C17', 'Database histories as_type -> add -> as_type and metric -> add -> metric are compared with freshly converted databases.', 'db_cast_row_support / db_add_row_support / db_cast_values are one-line facts about the model\'s cast; known finding: a float value in (0,1) converted to a count is listed with count 0.')
+reclaim('C18', 'Floating = heavy atom without a heavy neighbour (after the repair, explicit-H waters are excluded too); run_monotone_renaming / deleted_renumbered_same_fingerprints cover RDKit\'s renumbering after deletion.',
+        'Search inputs include lattice molecules whose heavy-atom distances equal a shell radius exactly (exact ties are decided identically in exact and floating-point arithmetic).')
+reclaim('C19', None, 'Premises: good_entry (no ASCII or Unicode white space), distinct names, sd_safe (no line breaks in title/property values) with the codec identity hypothesis; G, C, rt4 unconstrained.')
+reclaim('C20', None, 'typed_rt_float proves that the repr token passes through and classifies as a float; float(repr(x)) == x is trusted. ~3% of fuzzed literal strings (quoted strings, containers) are CUnmodelled: excluded from the model comparison and counted per class in the evidence; known-finding keys require the specific observed outcome.')
+reclaim('C02', 'Termination in positive form: run_succeeds (scene built + enough fuel => Ok), fuel_exec_suffices (the executable fuel 20000 covers 141 retained atoms), near monotone from level 1 for Z and R.', None)
+reclaim('C06', None, 'Known-finding key requires the exact known outcome; Pearson entries with a constant non-zero operand (0/0) are masked and counted; non-dyadic float stream compared at 1e-9.')
+reclaim('C16', 'No hypothesis on the history; fault enumeration covers update_props(append=True) with mixed fresh/extended columns, from_array with a wrong number of names, columns declared on an empty database.', None)
